@@ -799,13 +799,17 @@ class Convert(OpSpec):
             out.skipped = True
             return out
         fn = C.convert_merge if cname.endswith(".merge") else C.convert
+        kw = {}
         if has_shift and shift is not None:
-            res = lib_call(lambda: fn(h.obj, move_right_by=shift))
-        else:
-            res = lib_call(lambda: fn(h.obj))
+            kw["move_right_by"] = shift
+        rbm = op.get("rbm") if has_rbm else None
+        if rbm is not None:
+            kw["raise_bad_mode"] = bool(rbm)  # False: a key count the target has no mode for is converted anyway
+            out.probes.append("convert_raise_bad_mode_" + str(bool(rbm)))
+        res = lib_call(lambda: fn(h.obj, **kw))
         sup = [_key_count_supported(cname, ma, src_set) for ma in src_maps]
         if not res.ok:
-            if has_rbm and isinstance(res.exc, ValueError) and "supported" in str(res.exc) and any(s is False for s in sup):
+            if has_rbm and rbm is not False and isinstance(res.exc, ValueError) and "supported" in str(res.exc) and any(s is False for s in sup):
                 out.note = ("convert", cname, "bad_mode")
                 out.probes.append("convert_bad_mode_rejected")
                 return out
